@@ -24,6 +24,7 @@
  *       R<k><n> deliver n (default 1) copies of a reply of kind k on the connection of the last
  *              transmission: a answer, x nxdomain, s servfail, n notimp, r refused, c truncated,
  *              f formerr without OPT, F formerr with OPT, b badcookie, z 0-byte datagram,
+ *              k / K badcookie carrying a server cookie that changes with every reply / is fixed,
  *              g 5 bytes of garbage, G a reply cut to 14 bytes (neither parses)
  *       B<kinds> one message per letter queued on that connection, then ONE read (e.g. Bsg)
  *       X      read error (ECONNRESET) on the connection of the last transmission
@@ -468,6 +469,7 @@ static size_t build_reply(const vsock_t *v, char kind, unsigned char *out)
     case 'f': rcode = 1; strip = 1; break;
     case 'F': rcode = 1; break;
     case 'b': rcode = 23; break;
+    case 'k': case 'K': rcode = 23; break;
     default: break;
   }
   out[2] = (unsigned char)(0x80 | (out[2] & 0x01) | (tc ? 0x02 : 0)); /* QR, keep RD, TC */
@@ -481,6 +483,28 @@ static size_t build_reply(const vsock_t *v, char kind, unsigned char *out)
     if (out[opt] == 0 && out[opt + 1] == 0 && out[opt + 2] == 41) {
       out[opt + 5] = (unsigned char)(rcode >> 4);
       out[3]       = (unsigned char)(0x80 | (rcode & 0x0f));
+      if ((kind == 'k' || kind == 'K') && n >= opt + 11) {
+        /* BADCOOKIE with a SERVER cookie: the client cookie of the query (if it has one) echoed,
+           followed by 8 bytes that are fixed ('K') or different on every reply ('k') */
+        static unsigned int fresh = 0;
+        size_t        rdlen = (size_t)((out[opt + 9] << 8) | out[opt + 10]);
+        unsigned char client[8];
+        int           i;
+        memset(client, 0, sizeof(client));
+        if (rdlen >= 12 && opt + 11 + 12 <= n && ((out[opt + 11] << 8) | out[opt + 12]) == 10) {
+          memcpy(client, out + opt + 15, 8);
+        }
+        if (kind == 'k') fresh++;
+        out[opt + 9]  = 0;
+        out[opt + 10] = 20;
+        out[opt + 11] = 0; out[opt + 12] = 10; out[opt + 13] = 0; out[opt + 14] = 16;
+        memcpy(out + opt + 15, client, 8);
+        for (i = 0; i < 8; i++) {
+          out[opt + 23 + i] = (kind == 'K') ? (unsigned char)(0xA0 + i) : (unsigned char)((fresh >> (8 * (i & 3))) & 0xff);
+        }
+        out[opt + 23] |= 0x01; /* never all zero */
+        n = opt + 31;
+      }
     }
   }
   return n;
